@@ -211,9 +211,10 @@ def xs_collect(rep, tag, r):
     xs = r.get("xsolver")
     if not xs:
         return
-    st = rep.extra.setdefault("cross_solver", {"queries": 0, "disagreements": []})
+    st = rep.extra.setdefault("cross_solver", {"queries": 0, "disagreements": [], "undecided_by_second_solver": 0})
     for qn, v in xs.items():
         st["queries"] += 1
+        st["undecided_by_second_solver"] += len(v.get("undecided", []))
         if not v["agree"]:
             st["disagreements"].append("%s %s: %r" % (tag, qn, v))
             rep.inconclusive.append("%s: cross-solver check of %s: %r" % (tag, qn, v))
